@@ -140,7 +140,7 @@
 //|                 assert(match r0 {
 //|                     GdsRecord::LibName(d) => lib == (GdsLibraryBuilder { name: Some(d), ..l0 }) && structs@ == s0,
 //|                     GdsRecord::Units(d0, d1) => lib.units is Some && (lib.units->0).0 == d0 && (lib.units->0).1 == d1 && lib.name == l0.name && lib.version == l0.version && lib.dates == l0.dates && structs@ == s0,
-//|                     GdsRecord::BgnStruct { dates } => lib == l0 && structs@.len() == s0.len() + 1 && structs@.drop_last() == s0,
+//|                     GdsRecord::BgnStruct { dates } => lib == l0 && structs@.len() == s0.len() + 1 && structs@.drop_last() == s0 && (forall|i: int| 0 <= i < 12 ==> dates12(structs@.last().dates)[i] == #[trigger] dates@[i] as int),
 //|                     _ => false });
 //|                 let tr1 = tr.push(r0);
 //|                 assert(tr1.drop_last() =~= tr); assert(tr1.last() == r0);
